@@ -50,6 +50,21 @@ def run_case(case):
             left -= n
         while len(w.app):
             w.app.flush()
+    if case.get('run_first'):
+        # the manager has been through a run() of its own before the passes under test (the program stops itself; a late step of its
+        # `stopped` handler may leave an event queued when run() returns): what is still queued then keeps its place in front of
+        # everything fired afterwards.  Only the fire order of those left-overs is kept of that phase's log
+        try:
+            w.run(max_iters=300, drain=False)
+        except BaseException as e:  # noqa: BLE001
+            return [('API_RAISED', {'call': 'run', 'error': repr(e)})], {}, w
+        left = [u for u, i in w.events.items() if not i['dispatched'] and not i['cancelled'] and not i.get('system')]
+        w.log[:] = [e for e in w.log if e[0] == 'F' and e[1] in left]
+        for u in list(w.events):
+            if u not in left:
+                del w.events[u]
+                w.objs.pop(u, None)
+        w.left_over_after_run = len(left)
     for ext in case['passes']:
         if isinstance(ext, dict):
             # events fired on a component that is not registered yet (they wait in its own queue), which then joins the tree: the
@@ -84,6 +99,8 @@ def evaluate(case, w):
         marks.add('events_pending_on_a_component_that_joins_the_tree')
     if case.get('preload'):
         marks.add('manager_with_many_events_behind_it')
+    if getattr(w, 'left_over_after_run', 0):
+        marks.add('event_still_queued_when_an_earlier_run_returned')
     counts = {'ORD': 0, 'NOJUMP': 0, 'NOREENTRY': 0, 'HPRIO': 0, 'STOP': 0, 'ONCE': 0, 'ALLRUN': 0}
     declared = {}
     hchan = {}
@@ -239,6 +256,14 @@ def corpus():
             dict(HD(6, 'b', 2, [['fire', EV('a', 0)], ['stop'], ['ret', 'v']]), sig=sig), dict(HD(7, 'b', -0.5, []), sig=sig), HD(8, 'b', -2, []),
             dict(HD(9, 'c', 0, [['stop'], ['raise']]), sig=sig), dict(HD(10, 'c', 0, []), sig=sig), dict(HD(11, 'c', -1, []), sig=sig)],
             'passes': [[EV('a'), EV('b'), EV('c'), EV('a', 1)], [EV('c', -1), EV('b', 2)]]})
+    # a manager that has been through run() before: an event fired by a late step of its `stopped` handler may still be queued when run()
+    # returns (how late is swept); events of the same priority fired afterwards come after it
+    for k_ in range(0, 9):
+        pr = (0, 2, -1.5)[k_ % 3]
+        cs.append({'name': 'left-over-of-an-earlier-run-%d' % k_, 'run_first': True, 'handlers': [
+            HD(1, 'started', 0, [['stopmgr', None]]), HD(2, 'stopped', 0, [['yield', None]] * k_ + [['fire', EV('late', pr)]], gen=True),
+            HD(3, 'late', 0, [['fire', EV('follow', pr)], ['fire', EV('follow', pr)]]), HD(4, 'follow', 0, [])],
+            'passes': [[EV('follow', pr), EV('late', pr), EV('follow', pr)], [EV('follow', pr)]]})
     # stop() by a handler that then leaves with SystemExit / KeyboardInterrupt (a shutdown handler): stopped is stopped; the exit alone stops nothing
     cs.append({'name': 'stop-then-exit', 'handlers': [
         HD(1, 'a', 10, [['stop'], ['sysexit', 3]]), HD(2, 'a', 5, []), HD(3, 'a', -1.5, []),
